@@ -29,6 +29,7 @@ def units(tier, seed):
         us.append(('valueop', i, min(n, i + step)))
     for i in range(0, n, 25 if tier == 'thorough' else 50):
         us.append(('progpairs', i, min(n, i + (25 if tier == 'thorough' else 50)), tier))
+    us.append(('indexing',))
     us.append(('builtins', 0))
     us.append(('builtins', 1))
     for i in range(16 if tier == 'quick' else 320):
@@ -83,6 +84,27 @@ def run_unit(unit, drv, res, seed, tier):
                     res.see("error_variants", o[2])
         if unit[3] == 'thorough':
             res.exhaustive_done['value-pairs-in-programs'] = True
+    elif kind == 'indexing':
+        from celmodel.values import I, I64_MIN, I64_MAX
+        cases = []
+        for v in POOL:
+            if v[0] not in ('s', 'l', 'm', 'y'):
+                continue
+            n = len(v[1].encode('utf-8')) if v[0] == 's' else len(v[1])
+            for i in list(range(-2, n + 2)) + [I64_MIN, I64_MAX, 1 << 32, -(1 << 32)]:
+                cases.append(exec_case(len(cases), "a[i]", [("a", v), ("i", I(i))]))
+                if v[0] == 's' and -1 <= i <= 3:
+                    try:
+                        cases.append(exec_case(len(cases), "%s[%d]" % (render_literal(v), i)))
+                    except ValueError:
+                        pass
+        out = drv.run(cases, 'indexing')
+        for c, r in zip(cases, out):
+            res.evaluations += 1
+            res.nt(c["src"] + str(c.get("vars")))
+            o = check_total(res, c, r, 'indexing a pool value')
+            res.count("index_outcome:" + (o[1] if o[0] == 'err' else o[0]))
+        res.exhaustive_done['indexing-x-pool'] = True
     elif kind == 'builtins':
         cases = []
         fns = FUNCS + ["va", "h1_v", "m0_v", "ma", "o0_i", "h1_D", "h1_T", "h1_s", "t"]
